@@ -59,7 +59,7 @@ func TestC05(t *testing.T) {
 
 var c18Cfg = SGenCfg{PingsPct: 25, RFs: allRF, MinOps: 5, MaxOps: 30, FaultPct: 35, SlowFaults: false, AllowDup: true, RestFail: true,
 	W: map[string]int{"write": 18, "sync": 3, "read": 10, "readd": 10, "add": 14, "promote": 8, "remove": 10,
-		"pingfail": 3, "nodedrop": 3, "snapshot": 6, "setmode": 6, "setmodeseq": 5, "boot": 4, "reconnect": 6, "errio": 3, "addrace": 5, "ctlrevert": 3, "loneboot": 2, "statsrace": 4}}
+		"pingfail": 3, "nodedrop": 3, "snapshot": 6, "setmode": 6, "setmodeseq": 5, "boot": 4, "reconnect": 6, "errio": 3, "addrace": 5, "ctlrevert": 3, "loneboot": 2, "statsrace": 4, "addlate": 4}}
 
 func TestC18(t *testing.T) {
 	runStackProperty(t, "C18", "TestC18", func(rt *rapid.T) SProgram { return GenSProgram(rt, c18Cfg) },
